@@ -28,7 +28,7 @@ add("C15", "vp_sample (two build configurations)",
 
 add("C03", "vp_sample",
     "proptest + bounded-exhaustive enumeration against a reference built from the exact conversion references and native companion arithmetic",
-    "Sample level: add_amp / mul_amp / to_signed_sample / to_float_sample for all 14 formats on boundary-biased and random operands (valid by construction), the last 300 values at both ends of every integer format scaled by exactly 1.0 and offset by 0, all values of the 8/16-bit formats against the identity operands (offset 0, offsets landing on MIN/MAX, gains 0, 1, 0.5). Frame level: every Frame method for every width 1..=32 (u8, i16, U48, f32), widths 1/2/5/32 and the bare-sample frame for all 14 formats; closures record their call order and arguments, channel contents are pairwise distinct (and, in one case out of four, equal between neighbours), from_samples is driven with every short and long iterator length and with exact / (0, None) / (k < N, None) size hints, the channels() iterator is also used positionally (nth, skip, step_by) and its len() is read before every next() and after exhaustion, clones of it taken mid-way continue correctly, channels_mut() is also walked in reverse and from both ends; from_samples is also driven with a poll-counting non-fused iterator (exactly N items on success, no poll after the first None).",
+    "Sample level: add_amp / mul_amp / to_signed_sample / to_float_sample for all 14 formats on boundary-biased and random operands (valid by construction), the last 300 values at both ends of every integer format scaled by exactly 1.0 and offset by 0, all values of the 8/16-bit formats against the identity operands (offset 0, offsets landing on MIN/MAX, gains 0, 1, 0.5). Frame level: every Frame method for every width 1..=32 (u8, i16, U48, f32), widths 1/2/5/32 and the bare-sample frame for all 14 formats; closures record their call order and arguments, channel contents are pairwise distinct (and, in one case out of four, equal between neighbours), from_samples is driven with every short and long iterator length and with exact / (0, None) / (k < N, None) size hints, the channels() iterator is also used positionally (nth, skip, step_by) and its len() is read before every next() and after exhaustion, clones of it taken mid-way continue correctly, channels_mut() is also walked in reverse and from both ends; from_samples is also driven with a poll-counting non-fused iterator (exactly N items on success, no poll after the first None). Round 7: frames whose every other channel is silent in both operands, and gains down to 1e-300 (the product must still be the sample operation's).",
     "Trusted: the conversion references of C01/C02, native + and * of the host in the companion type. The 14 x 32 product of array instantiations is covered as 4 x 32 + 14 x 4 (array frames are one generic impl).",
     "DESIGN.md §4 C03")
 
@@ -40,7 +40,7 @@ add("C06", "vp_buf (+ libFuzzer target rb in the thorough tier)",
 
 add("C10", "vp_buf (+ libFuzzer target slice in the thorough tier)",
     "bounded-exhaustive enumeration + proptest with pointer/length/content oracles and a counting allocator",
-    "Every N in 1..=32 x six formats (1/2/4/8-byte, incl. newtypes) x every length 0..=2N+1 x shared/mutable/boxed through every entry point (free functions and trait methods), plus random lengths up to 4096, the viewed range sitting at a non-zero offset inside a larger buffer (so that an empty range still has a real address and nothing outside the range may change): Some iff N divides L, L/N frames, same memory, frame i channel c == sample i*N+c, a write through the mutable view changes exactly that sample, inverse view restores pointer and length; boxed conversions: pointer preserved, zero allocator events on success, every byte released after success-and-drop and after a failed conversion. In-place ops on eight frame types (incl. [i32;2] and [i64;1] with values wider than their float companion's mantissa), closures recording their arguments (call k is about element k), zip_map_in_place also with a second slice of a different frame type, runs of equal neighbouring frames, sums landing exactly on MAX / MIN: every length pair up to 6x6 and random lengths: equal to the element-wise frame op, and a length mismatch panics with the destination bit-identical.",
+    "Every N in 1..=32 x six formats (1/2/4/8-byte, incl. newtypes) x every length 0..=2N+1 x shared/mutable/boxed through every entry point (free functions and trait methods), plus random lengths up to 4096, the viewed range sitting at a non-zero offset inside a larger buffer (so that an empty range still has a real address and nothing outside the range may change): Some iff N divides L, L/N frames, same memory, frame i channel c == sample i*N+c, a write through the mutable view changes exactly that sample, inverse view restores pointer and length; boxed conversions: pointer preserved, zero allocator events on success, every byte released after success-and-drop and after a failed conversion. In-place ops on eight frame types (incl. [i32;2] and [i64;1] with values wider than their float companion's mantissa), closures recording their arguments (call k is about element k), zip_map_in_place also with a second slice of a different frame type, runs of equal neighbouring frames, sums landing exactly on MAX / MIN: every length pair up to 6x6 and random lengths: equal to the element-wise frame op, and a length mismatch panics with the destination bit-identical. Round 7: in-place add with unity gain on every channel.",
     "Trusted: the counting allocator (self-tested), pointer comparison, std's unsafe-precondition checks in the debug-assertion build.",
     "DESIGN.md §4 C10")
 
@@ -62,21 +62,21 @@ add("C14", "vp_buf",
     "Trusted: the queue model, the probe source.",
     "DESIGN.md §4 C14")
 
-add("C04", "vp_sig",
-    "proptest over typed adaptor trees (program generation) against a compositional pointwise model with instrumented sources",
-    "Random adaptor trees to depth 4 (thorough 7) over 8 frame types, built from the real dasp adaptors on type-erased children (map, scale/offset and their per-channel variants, clip_amp, inspect, delay, by_ref via a throw-away adaptor on a borrow, zip_map, add_amp, mul_amp), plus a catalogue of every single adaptor and every pair; frame k must equal the composition of the frame operations on frame k of the sources, clip_amp an independent clamp, delay(k) k equilibrium frames; is_exhausted() agrees with the stream model before every pull; after every output frame every probe's pull counter must have advanced by exactly one (zero under a delay still emitting silence) and every inspect closure must have been called exactly once per frame that reached it. A separate sub-check drives clip_amp with MIN / MAX / boundary values of all 14 formats x boundary thresholds; another drives the gain / offset adaptors (scale_amp, scale_amp_per_channel, mul_amp, offset_amp, offset_amp_per_channel, add_amp) with full-range values of all 14 formats and compares them with the Frame operation on the same frame and with four identities stated on raw amplitudes (offset 0, gain 1, gain 0, gain 0.5 on even amplitudes).",
+add("C04", "vp_sig (+ libFuzzer target tree in the thorough tier)",
+    "proptest over typed adaptor trees (program generation) against a compositional pointwise model with instrumented sources; libFuzzer + ASan over byte-decoded trees in the thorough tier",
+    "Random adaptor trees to depth 4 (thorough 7) over 8 frame types, built from the real dasp adaptors on type-erased children (map, scale/offset and their per-channel variants, clip_amp, inspect, delay, by_ref via a throw-away adaptor on a borrow, zip_map, add_amp, mul_amp), plus a catalogue of every single adaptor and every pair; frame k must equal the composition of the frame operations on frame k of the sources, clip_amp an independent clamp, delay(k) k equilibrium frames; is_exhausted() agrees with the stream model before every pull; after every output frame every probe's pull counter must have advanced by exactly one (zero under a delay still emitting silence) and every inspect closure must have been called exactly once per frame that reached it. A separate sub-check drives clip_amp with MIN / MAX / boundary values of all 14 formats x boundary thresholds; another drives the gain / offset adaptors (scale_amp, scale_amp_per_channel, mul_amp, offset_amp, offset_amp_per_channel, add_amp) with full-range values of all 14 formats and compares them with the Frame operation on the same frame and with four identities stated on raw amplitudes (offset 0, gain 1, gain 0, gain 0.5 on even amplitudes). Round 7: map closures count their calls (exactly one per output frame, in order, also over runs of equal frames). Thorough tier: the same cases decoded from bytes under libFuzzer + ASan (target tree).",
     "Trusted: the Frame operations (C03's subject) used by the model, the probe sources. Operands are small by construction so results stay in range.",
     "DESIGN.md §4 C04")
 
-add("C05", "vp_sig",
-    "bounded-exhaustive catalogue + proptest trees against a stream-length model",
-    "Every single adaptor and every pair x source lengths 0..=12 (thorough 16) x 1..4 channels x iterator-backed and interleaved-sample sources with every incomplete-tail length x delays 0..=3 x every consumption mode (is_exhausted before/after each next with pulls past the end, until_exhausted, take(n), interleaved iterator, next_sample, lift), two-source adaptors with every (L1, L2) <= 6, plus random trees: exhaustion exactly at min source length (+ leading delays), equilibrium afterwards, iterators yield exactly the model length and then None on five further calls, interleaved output yields frames x channels samples in channel order. Sources include non-fused iterators (which yield items again after None: the signal must end exactly once); the interleaved output is also cloned after every possible number of samples; take / until_exhausted / the interleaved iterator obey the iterator laws (nth, skip, step_by, size_hint, count, last agree with next). The combining adaptors that are not tree nodes: mul_hz over every (source length <= 8, multiplier-signal length <= 12, ratio k/4 <= 3, floor|linear) is exhausted iff the multiplier signal is or a plain converter at the same ratio is; bus outputs under random pull schedules are exhausted iff they have received every source frame; a plain converter at every ratio k/4 <= 4 over sources of 0..=12 frames must end after ceil((R+1)/r) frames or one more; rate.hz(finite frequency signal) used as a signal is exhausted exactly when that signal is; the silence after the end / in a delay lead-in / from take() padding is the amplitude-0 value of each of the 14 formats (stated without the library's constants); signals are also consumed through a &mut borrow; bus outputs are also attached while others lag; until_exhausted() over a buffered signal or an upsampling converter stays finished when polled again after its first None.",
+add("C05", "vp_sig (+ libFuzzer target exhaust in the thorough tier)",
+    "bounded-exhaustive catalogue + proptest trees against a stream-length model; libFuzzer + ASan over byte-decoded trees in the thorough tier",
+    "Every single adaptor and every pair x source lengths 0..=12 (thorough 16) x 1..4 channels x iterator-backed and interleaved-sample sources with every incomplete-tail length x delays 0..=3 x every consumption mode (is_exhausted before/after each next with pulls past the end, until_exhausted, take(n), interleaved iterator, next_sample, lift), two-source adaptors with every (L1, L2) <= 6, plus random trees: exhaustion exactly at min source length (+ leading delays), equilibrium afterwards, iterators yield exactly the model length and then None on five further calls, interleaved output yields frames x channels samples in channel order. Sources include non-fused iterators (which yield items again after None: the signal must end exactly once); the interleaved output is also cloned after every possible number of samples; take / until_exhausted / the interleaved iterator obey the iterator laws (nth, skip, step_by, size_hint, count, last agree with next). The combining adaptors that are not tree nodes: mul_hz over every (source length <= 8, multiplier-signal length <= 12, ratio k/4 <= 3, floor|linear) is exhausted iff the multiplier signal is or a plain converter at the same ratio is; bus outputs under random pull schedules are exhausted iff they have received every source frame; a plain converter at every ratio k/4 <= 4 over sources of 0..=12 frames must end after ceil((R+1)/r) frames or one more; rate.hz(finite frequency signal) used as a signal is exhausted exactly when that signal is; the silence after the end / in a delay lead-in / from take() padding is the amplitude-0 value of each of the 14 formats (stated without the library's constants); signals are also consumed through a &mut borrow; bus outputs are also attached while others lag; until_exhausted() over a buffered signal or an upsampling converter stays finished when polled again after its first None. Round 7: a buffered adaptor drained through until_exhausted yields at least every source frame and fewer than source length + capacity. Thorough tier: the tree cases decoded from bytes under libFuzzer + ASan (target exhaust).",
     "Trusted: the stream-length model (pointwise keeps, two-source min, delay adds).",
     "DESIGN.md §4 C05")
 
 add("C08", "vp_sig",
     "proptest + small exhaustive grid against an exact-rational position model with an instrumented source (exact regime ==, general regime derived tolerance)",
-    "Runs of up to 300 outputs (drift runs 2e4 / 1e6) over 5 frame formats, floor and linear interpolators, finite (1..60) and infinite sources, and nine ways of establishing the ratio (three constructors, the Signal methods, mul_hz with a control signal, the three setters before every frame). The model keeps P_n as an exact multiple of 2^-64. Exact regime (ratios k/2^m, grid-valued frames): pulls beyond priming == floor(P_n), floor output == source[floor(P_n)], linear output == exact blend (truncated toward zero for integer formats), is_exhausted() before every output, until_exhausted() count == model and in {ceil((R+1)/r), +1}, one control frame per output for mul_hz; source frames contain plateaus with odd integer values and the never-outside-the-interval clause is exact for integer formats in both regimes. The hz-pair entry points are called with (p x t, t) for 14 target rates t (powers of two, small odd numbers, common and uncommon audio rates) with p x t exact, incl. every whole-number ratio up to 200 and every quarter ratio up to 50, so the quotient source_hz / target_hz is exactly p. General regime (arbitrary ratios in [1e-3, 1e3]): the same with a tolerance of n*2^-51*(1+r_max) on the position.",
+    "Runs of up to 300 outputs (drift runs 2e4 / 1e6) over 5 frame formats, floor and linear interpolators, finite (1..60) and infinite sources, and nine ways of establishing the ratio (three constructors, the Signal methods, mul_hz with a control signal, the three setters before every frame). The model keeps P_n as an exact multiple of 2^-64. Exact regime (ratios k/2^m, grid-valued frames): pulls beyond priming == floor(P_n), floor output == source[floor(P_n)], linear output == exact blend (truncated toward zero for integer formats), is_exhausted() before every output, until_exhausted() count == model and in {ceil((R+1)/r), +1}, one control frame per output for mul_hz; source frames contain plateaus with odd integer values and the never-outside-the-interval clause is exact for integer formats in both regimes. The hz-pair entry points are called with (p x t, t) for 14 target rates t (powers of two, small odd numbers, common and uncommon audio rates) with p x t exact, incl. every whole-number ratio up to 200 and every quarter ratio up to 50, so the quotient source_hz / target_hz is exactly p. General regime (arbitrary ratios in [1e-3, 1e3]): the same with a tolerance of n*2^-51*(1+r_max) on the position. Round 7: whole and quarter ratios whose quotient is exact are also driven through set_playback_hz_scale, mul_hz and scale_playback_hz.",
     "Trusted: the position model, the probe source, f64 exactness on the dyadic grid. The general regime cannot distinguish positions closer than the stated tolerance to an integer.",
     "DESIGN.md §4 C08")
 
@@ -88,31 +88,31 @@ add("C20", "vp_sig",
 
 add("C17", "vp_sig",
     "proptest + long deterministic runs against an exact accumulated-phase model; metamorphic/purity relations for noise",
-    "Oscillators driven at random and boundary rates with constant (ConstHz) and per-frame (Hz over an instrumented frequency signal) frequencies from 0 to 1e30 x rate (beyond 2^63), runs to 2000 frames plus 1e6-frame (thorough 2e7) tiny-step, huge-step, varying and exact-regime runs: phase in [0,1) and starting at 0, phase == frac(sum of steps) exactly in the exact regime (dyadic steps at power-of-two rates or at integer rates such as 49, 441, 44100, 48000), a Phase advanced 1 or 3 frames and then turned into sine / saw / square through the method form carries on from its phase, and within the sum of one ulp of every addition so far (2^-52 x (phase + step) per frame) otherwise, steps down to 1e-19 (below 2^-52), subnormal steps (exact regime of their own) and rates below 1 included, sine/saw/square against the observed phase, simplex noise in range and equal to its value at the same phase, one frequency frame consumed per output frame (also after the frequency signal has reported exhaustion). Noise: boundary seeds (0, 1, 2^32, 2^63, u64::MAX-k for k<=300) and random seeds: in range, no panic, reproducible on restart and clone, frame n of noise(s) == frame 0 of noise(s+n).",
+    "Oscillators driven at random and boundary rates with constant (ConstHz) and per-frame (Hz over an instrumented frequency signal) frequencies from 0 to 1e30 x rate (beyond 2^63), runs to 2000 frames plus 1e6-frame (thorough 2e7) tiny-step, huge-step, varying and exact-regime runs: phase in [0,1) and starting at 0, phase == frac(sum of steps) exactly in the exact regime (dyadic steps at power-of-two rates or at integer rates such as 49, 441, 44100, 48000), a Phase advanced 1 or 3 frames and then turned into sine / saw / square through the method form carries on from its phase, and within the sum of one ulp of every addition so far (2^-52 x (phase + step) per frame) otherwise, steps down to 1e-19 (below 2^-52), subnormal steps (exact regime of their own) and rates below 1 included, sine/saw/square against the observed phase, simplex noise in range and equal to its value at the same phase, one frequency frame consumed per output frame (also after the frequency signal has reported exhaustion). Noise: boundary seeds (0, 1, 2^32, 2^63, u64::MAX-k for k<=300) and random seeds: in range, no panic, reproducible on restart and clone, frame n of noise(s) == frame 0 of noise(s+n). Round 7: steps next to 0.5 / 0.25 / 0.75 and 2^31 (thorough 2^32) consecutive noise frames covering the generator's whole counter period.",
     "Trusted: libm sin/cos for the references; the phase observer is a second instance of the same Phase code (the model checks it against exact accumulation).",
     "DESIGN.md §4 C17")
 
 add("C11", "vp_sig (std) + vp_nostd (dasp_sample/frame/ring_buffer/rms with default-features = false)",
     "proptest operation histories + long runs against an exact windowed mean-square reference, in two feature configurations",
-    "Histories of push / push-squared / reset (up to 50 x N, max 3000 operations; long runs of 1e5, thorough 1e6 pushes with loud/quiet alternation; value profiles incl. loud / far quieter but non-zero / reset / ordinary, quiet throughout, first channel silent; constructed loud-quiet-reset-quiet histories for every format and window length; the detector may be replaced by its clone at any point) over 9 formats (incl. u64, i64) x 1/2/5 channels x window lengths 1..=64, 100, 1000 (constructed cases up to 144000). Exact regime (grid values k/64, libm sqrt): next_squared == mean and next == sqrt(mean) bit for bit; general regime: |next_squared - mean| within the derived bound u X^2 (2.2 T (N+1)/N + 5), next within the bound propagated through the square root (4u relative for libm; 7% + 2^-62 / 2^-500 for the no_std approximation); never negative or NaN; after reset() bit-identical to a fresh detector on the same subsequent input; current() == last next() (and the square root of the last next_squared()); the signal adaptor bit-identical to the direct detector, also when pulled N+3 frames past the end of its source. The driver runs a std binary and a binary whose dasp crates are built without the std feature (a start-up self-check confirms which square root is linked) and merges their evidence.",
+    "Histories of push / push-squared / reset (up to 50 x N, max 3000 operations; long runs of 1e5, thorough 1e6 pushes with loud/quiet alternation; value profiles incl. loud / far quieter but non-zero / reset / ordinary, quiet throughout, first channel silent; constructed loud-quiet-reset-quiet histories for every format and window length; the detector may be replaced by its clone at any point) over 9 formats (incl. u64, i64) x 1/2/5 channels x window lengths 1..=64, 100, 1000 (constructed cases up to 144000). Exact regime (grid values k/64, libm sqrt): next_squared == mean and next == sqrt(mean) bit for bit; general regime: |next_squared - mean| within the derived bound u X^2 (2.2 T (N+1)/N + 5), next within the bound propagated through the square root (4u relative for libm; 7% + 2^-62 / 2^-500 for the no_std approximation); never negative or NaN; after reset() bit-identical to a fresh detector on the same subsequent input; current() == last next() (and the square root of the last next_squared()); the signal adaptor bit-identical to the direct detector, also when pulled N+3 frames past the end of its source. The driver runs a std binary and a binary whose dasp crates are built without the std feature (a start-up self-check confirms which square root is linked) and merges their evidence. Round 7: float formats with amplitudes up to 8.",
     "Trusted: f64 reference arithmetic on exact amplitudes (its own error is added to the bound). The general-regime bound grows with the number of pushes since the last reset; the exact regime compensates.",
     "DESIGN.md §4 C11")
 
 add("C19", "vp_sig",
     "bounded-exhaustive enumeration (rectifiers) + proptest histories (envelope) against exact and interval oracles; one open known finding excluded by construction",
-    "Rectifiers: every value of the 8/16-bit formats (minimum excluded, as the statement's premise), boundary sets and random values of the other ten formats, 1..=4 channels, functions and Rectifier impls: |signed amplitude|, max(s, eq), min(s, eq) exactly. Envelope: histories of up to 400 frames over 7 frame types x peak (three rectifiers) and rms (window 1..=32) detection x attack/release from {0, -0.0, 1e-30, 1e-3, 0.5, 1, 10, 1e4, 3.4e7, 1e9, +infinity, random} with set_attack_frames/set_release_frames at random steps, directly and through the detect_envelope adaptor: every output channel inside d + [g_lo, g_hi](l - d) with g = exp(-1/frames) (allowance: 2 ulp at the signal level for float formats, 1 LSB + 4 ulp of |l - d| for integer formats), between the previous envelope and the detected value, equal to the detected value for a zero time constant, prefix before the first parameter change identical to the unchanged run, adaptor bit-identical to the detector, also when pulled past the end of its source; every named constructor (peak, peak_*_half_wave, peak_from_rectifier, rms) bit-identical to Detector::new. Known finding F8 (i32 frames, gain rounding to 1.0, previous envelope at full scale -> overflow) is excluded by construction, counted, and reproduced by one deterministic probe that prints the KNOWN-FINDING line; any other failure is a violation.",
+    "Rectifiers: every value of the 8/16-bit formats (minimum excluded, as the statement's premise), boundary sets and random values of the other ten formats, 1..=4 channels, functions and Rectifier impls: |signed amplitude|, max(s, eq), min(s, eq) exactly. Envelope: histories of up to 400 frames over 7 frame types x peak (three rectifiers) and rms (window 1..=32) detection x attack/release from {0, -0.0, 1e-30, 1e-3, 0.5, 1, 10, 1e4, 3.4e7, 1e9, +infinity, random} with set_attack_frames/set_release_frames at random steps, directly and through the detect_envelope adaptor: every output channel inside d + [g_lo, g_hi](l - d) with g = exp(-1/frames) (allowance: 2 ulp at the signal level for float formats, 1 LSB + 4 ulp of |l - d| for integer formats), between the previous envelope and the detected value, equal to the detected value for a zero time constant, prefix before the first parameter change identical to the unchanged run, adaptor bit-identical to the detector, also when pulled past the end of its source; every named constructor (peak, peak_*_half_wave, peak_from_rectifier, rms) bit-identical to Detector::new. Known finding F8 (i32 frames, gain rounding to 1.0, previous envelope at full scale -> overflow) is excluded by construction, counted, and reproduced by one deterministic probe that prints the KNOWN-FINDING line; any other failure is a violation. Round 7: float frames with amplitudes up to 4.",
     "Trusted: f64 exp for the reference gain (1e-5 relative allowance for the f32 powf), a second instance of the detector stage to observe d.",
     "DESIGN.md §4 C19, §5 F8")
 
 add("C18", "vp_sig",
     "proptest + depth/length grid with round-trip (ratio 1), metamorphic (superposition, scaling, reset) and range oracles",
-    "Depths 1..=16 (thorough 64), histories of 0..6 x depth frames incl. the priming phase, fractions {0, k/1024, random, 1-2^-53}, formats f64, f32, [f64;2], i16, i32, I24 (integer histories at full scale incl. MIN / MAX at ratio 1, histories ending in runs of exact silence; float histories scaled by gains from 1e-30 to 1e6): (i) Converter at ratio exactly 1 (scale 1.0, or two equal rates through from_hz_to_hz / set_hz_to_hz) reproduces the source delayed by exactly depth frames within 1e-12 peak (exact for integer formats), for every depth and a grid of history lengths around depth; (ii) interp(A+B) ~ interp(A)+interp(B) and interp(2^k A) ~ 2^k interp(A) within derived rounding bounds; (iii) outputs finite and bounded, also through the converter at random ratios; (iv) constant input on a primed buffer with depth >= 4 within 1 % on a grid of 64 fractions; (v) after reset() silent and bit-identical to a fresh interpolator on any subsequent history.",
+    "Depths 1..=16 (thorough 64), histories of 0..6 x depth frames incl. the priming phase, fractions {0, k/1024, random, 1-2^-53}, formats f64, f32, [f64;2], i16, i32, I24 (integer histories at full scale incl. MIN / MAX at ratio 1, histories ending in runs of exact silence; float histories scaled by gains from 1e-30 to 1e6): (i) Converter at ratio exactly 1 (scale 1.0, or two equal rates through from_hz_to_hz / set_hz_to_hz) reproduces the source delayed by exactly depth frames within 1e-12 peak (exact for integer formats), for every depth and a grid of history lengths around depth; (ii) interp(A+B) ~ interp(A)+interp(B) and interp(2^k A) ~ 2^k interp(A) within derived rounding bounds; (iii) outputs finite and bounded, also through the converter at random ratios; (iv) constant input on a primed buffer with depth >= 4 within 1 % on a grid of 64 fractions; (v) after reset() silent and bit-identical to a fresh interpolator on any subsequent history. Round 7: an f64 impulse next to f64::MAX at ratio exactly 1.",
     "Trusted: the stated tolerances; integer inputs are limited to 0.15 full scale (overflow on full-scale integer input is outside the statement).",
     "DESIGN.md §4 C18")
 
 add("C09", "vp_graph (+ libFuzzer target graph in the thorough tier)",
     "bounded-exhaustive enumeration of small multigraphs + proptest graphs against a reachability / topological-order / functional-evaluation model with instrumented nodes",
-    "Every directed multigraph on up to 3 nodes (multiplicity 0..2 on each ordered pair incl. self-loops) x every output node, every digraph with self-loops on 4 nodes x every output node (thorough: every loop-free digraph on 5 nodes), single removals with slot reuse on stable graphs, and random graphs of up to 14 nodes with parallel edges, self-loops, removals, late nodes and edges, consecutive process calls with different output nodes on one reused processor of random capacity, Graph and StableGraph: processed set == reverse reachability, each node once; each invocation's input pointers == one per incoming edge from a different node, never the node's own buffers, and presenting all of the neighbour's buffers whatever the consumer's own channel count; mixers with 17..=80 incoming edges on a processor created with capacity 0..=5; optionally a node that panics (caught) during an earlier call on the same processor; loop-free graphs of the library's own Sum / SumBuffers / Pass nodes fed by closure nodes and finite signal nodes, evaluated by an independent reference over 1..=4 calls; for acyclic upstream subgraphs inputs first and buffers == functional evaluation; nodes own 0..=2 output buffers (zero-buffer nodes must still be processed); sources()/sinks() == live nodes without incoming / outgoing edges.",
+    "Every directed multigraph on up to 3 nodes (multiplicity 0..2 on each ordered pair incl. self-loops) x every output node, every digraph with self-loops on 4 nodes x every output node (thorough: every loop-free digraph on 5 nodes), single removals with slot reuse on stable graphs, and random graphs of up to 14 nodes with parallel edges, self-loops, removals, late nodes and edges, consecutive process calls with different output nodes on one reused processor of random capacity, Graph and StableGraph: processed set == reverse reachability, each node once; each invocation's input pointers == one per incoming edge from a different node, never the node's own buffers, and presenting all of the neighbour's buffers whatever the consumer's own channel count; mixers with 17..=80 incoming edges on a processor created with capacity 0..=5; optionally a node that panics (caught) during an earlier call on the same processor; loop-free graphs of the library's own Sum / SumBuffers / Pass nodes fed by closure nodes and finite signal nodes, evaluated by an independent reference over 1..=4 calls; for acyclic upstream subgraphs inputs first and buffers == functional evaluation; nodes own 0..=2 output buffers (zero-buffer nodes must still be processed); sources()/sinks() == live nodes without incoming / outgoing edges. Round 7: a call aborted by a panicking node on one component, followed by calls on another component of the same graph with the same processor (nothing of the aborted traversal may be rendered).",
     "Trusted: petgraph 0.5.1 as resolved by the repository's lock file; the harness edge list and reachability model. Input order is unspecified and not asserted.",
     "DESIGN.md §4 C09")
 
@@ -124,7 +124,7 @@ add("C16", "vp_graph",
 
 add("C07", "vp_alloc",
     "scenario catalogue driven by enumeration + proptest parameters, observed with a counting global allocator (thread-local, armed regions)",
-    "29 scenarios covering sample conversions and arithmetic (incl. the operators of the eight custom-width integer types, in the debug-assertion build), every Frame method, borrowed slice views and in-place ops, Bounded/Fixed ring buffers over array / &mut / Vec / Box<[T]> storage (incl. extend() from iterators whose size_hint is exact, a loose upper bound or unknown, and from iterators of unknown length, shorter and longer than the buffer), rectifiers, RMS, envelope detectors, Floor/Linear/Sinc interpolators, window functions, every signal source and adaptor (incl. take / until_exhausted / interleaved samples / lift / by_ref), a scenario of rarely used entry points (conversion functions called directly, the FromSample / ToSample underscore traits, channel_mut, channels_mut().rev(), the from_* slice views, Bounded IndexMut / from_full / raw parts, Detect::detect, the Converter's source access and setters, Phase::next_phase_wrapped_to), fork by_ref and by_rc branches, buffered, rate conversion with every interpolator and mul_hz, rms / detect_envelope adaptors, Window / Windower / Windowed, random adaptor-tree compositions, graphs of stock nodes and wrappers (Graph and StableGraph, cycles, nested GraphNode, alternating output nodes, a mixer with 260..1000 inputs and channel-count mismatches in both directions) after a warm-up process call, and the bus in lock-step (backlog and live bytes constant, also after an output joined and was dropped while everything was in step). State is constructed unarmed; 16..2000 operations (thorough: 2e5) run armed; allocs == reallocs == frees == 0 and the checksum equals the unarmed run's.",
+    "30 scenarios covering sample conversions and arithmetic (incl. the operators of the eight custom-width integer types, in the debug-assertion build), every Frame method, borrowed slice views and in-place ops, Bounded/Fixed ring buffers over array / &mut / Vec / Box<[T]> storage (incl. extend() from iterators whose size_hint is exact, a loose upper bound or unknown, and from iterators of unknown length, shorter and longer than the buffer), rectifiers, RMS, envelope detectors, Floor/Linear/Sinc interpolators, window functions, every signal source and adaptor (incl. take / until_exhausted / interleaved samples / lift / by_ref), a scenario of rarely used entry points (conversion functions called directly, the FromSample / ToSample underscore traits, channel_mut, channels_mut().rev(), the from_* slice views, Bounded IndexMut / from_full / raw parts, Detect::detect, the Converter's source access and setters, Phase::next_phase_wrapped_to), fork by_ref and by_rc branches, buffered, rate conversion with every interpolator and mul_hz, rms / detect_envelope adaptors, Window / Windower / Windowed, random adaptor-tree compositions, graphs of stock nodes and wrappers (Graph and StableGraph, cycles, nested GraphNode, alternating output nodes, a mixer with 260..1000 inputs and channel-count mismatches in both directions) after a warm-up process call, and the bus in lock-step (backlog and live bytes constant, also after an output joined and was dropped while everything was in step). State is constructed unarmed; 16..2000 operations (thorough: 2e5) run armed; allocs == reallocs == frees == 0 and the checksum equals the unarmed run's. Round 7: Sinc / Linear converters over 16- and 9-channel frames and Debug formatting of Rms / Detector / ring buffers (rotated) into a non-allocating fmt::Write sink.",
     "Trusted: the counting allocator (self-tested at start-up). An allocation in an operation outside the catalogue is invisible; the catalogue is listed in the evidence.",
     "DESIGN.md §4 C07")
 
